@@ -20,13 +20,20 @@ C(op, x) == [op |-> op, x |-> x]
 Calls(o) ==
     {C(op, X0) : op \in IpfClearOps}
     \cup UNION {{C(op, [X0 EXCEPT !.t = t, !.c = c, !.m = m]) : op \in IpfTargetOps, c \in CapDom(t), m \in 0..1} : t \in Targets}
-    \cup UNION {{C(op, [X0 EXCEPT !.t = t, !.c = c]) : op \in IpfSmallOps, c \in CapDom(t)} : t \in SmallTargets}
     \cup {C(op, X0) : op \in IpfSmallOps}
     \cup {C(op, [X0 EXCEPT !.src = Other(o)]) : op \in {"ctor_copy", "ctor_move", "assign_move"}}
     \cup {C(op, [X0 EXCEPT !.src = s]) : op \in {"assign_copy", "swap", "fswap"}, s \in Objs}
     \cup {C("call", [X0 EXCEPT !.a = a]) : a \in 0..2}
 
-S0 == [f |-> EmptyW, g |-> EmptyW]
+\* the small wrapper h is (re)built by set_small; to keep the state space small, while h holds a target only the
+\* cross-capacity operations, calls and set_small are offered (everything else is explored with h empty)
+SmallCalls ==
+    UNION {{C("set_small", [X0 EXCEPT !.t = t, !.c = c]) : c \in CapDom(t)} : t \in SmallTargets} \cup {C("set_small", X0)}
+CallsAt(o) ==
+    IF obj.h = EmptyW THEN Calls(o) \cup SmallCalls
+    ELSE {c \in Calls(o) : c.op \in IpfSmallOps \cup {"call"}} \cup SmallCalls
+
+S0 == [f |-> EmptyW, g |-> EmptyW, h |-> EmptyW]
 InitIpf ==
     /\ cs = 0
     /\ obj = S0
@@ -39,11 +46,11 @@ Step(o, c) ==
           /\ last' = [op |-> c.op, o |-> o, x |-> c.x, pre |-> obj, post |-> ef.st, ret |-> ef.ret, calls |-> ef.calls,
                       handler |-> ef.handler]
     /\ UNCHANGED cs
-NextIpf == \E o \in Objs : \E c \in Calls(o) : Step(o, c)
+NextIpf == \E o \in Objs : \E c \in CallsAt(o) : (c.op = "set_small" => o = "f") /\ Step(o, c)
 SpecIpf == InitIpf /\ [][NextIpf]_vars
 EmitIpf == PrintT(<<"GEN", ToJson(last')>>)
 
-TypeOK == LegalW(obj.f) /\ LegalW(obj.g)
+TypeOK == LegalW(obj.f) /\ LegalW(obj.g) /\ (obj.h = EmptyW \/ (LegalW(obj.h) /\ obj.h.t \in SmallTargets))
 \* a call never changes a wrapper; it reaches exactly one target iff the wrapper is not empty; an empty one fires the handler
 CallLaws ==
     [][last'.op = "call" =>
@@ -57,7 +64,10 @@ OnlyCallCalls == [][last'.op # "call" => last'.calls = <<>> /\ last'.handler = 0
 CopyEquivalent == [][last'.op \in IpfCopyOps => obj'[last'.o] = obj[last'.x.src] /\ obj'[last'.x.src] = obj[last'.x.src]]_vars
 SwapExchanges == [][last'.op \in IpfSwapOps => obj'[last'.o] = obj[last'.x.src] /\ obj'[last'.x.src] = obj[last'.o]]_vars
 Independence ==
-    [][\A o \in Objs : (last'.o # o /\ ~(last'.op \in IpfSwapOps \cup IpfMoveOps /\ last'.x.src = o)) => obj'[o] = obj[o]]_vars
+    [][/\ \A o \in Objs : ((last'.o # o \/ last'.op = "set_small") /\ ~(last'.op \in IpfSwapOps \cup IpfMoveOps /\ last'.x.src = o)) => obj'[o] = obj[o]
+       /\ (last'.op \notin IpfSmallMoveOps \cup {"set_small"}) => obj'.h = obj.h]_vars
+\* the cross-capacity copy yields an equivalent target and leaves the small source untouched
+SmallCopyEquivalent == [][last'.op \in IpfSmallCopyOps => obj'[last'.o] = obj.h /\ obj'.h = obj.h]_vars
 
 \* ------------------------------------------------------------------------------ SpecCases
 Vals == 0..2
